@@ -127,3 +127,49 @@ func VxH_C07_font() {
 		vx.Assert("accepted-font-sets-size-and-family", size && family)
 	}
 }
+
+// gradient functions: any first argument of 0..4 component values followed by two
+// colour stops is either understood or rejected, never a panic.
+func VxH_C07_gradients() {
+	fn := []string{"linear-gradient", "repeating-linear-gradient", "radial-gradient", "repeating-radial-gradient"}[vx.Choose("fn", 4)]
+	n := vx.Choose("n", 5)
+	idents := []string{"to", "top", "circle", "at"}
+	if vx.Tier() > 0 {
+		idents = []string{"to", "top", "left", "bottom", "red", "circle", "at", "closest-side", "center"}
+	}
+	ws := pa.NewWhitespace(" ", pa.Pos{})
+	var args []pa.Token
+	for i := 0; i < n; i++ {
+		id := "a" + string(rune('0'+i))
+		var t pa.Token
+		nk := len(idents) + 2 + 2*vx.Tier()
+		switch k := vx.Choose(id, nk); {
+		case k < len(idents):
+			t = pa.NewIdent(idents[k], pa.Pos{})
+		case k == len(idents):
+			t = pa.NewDimension(pa.NewNumber(45, pa.Pos{}), "deg")
+		case k == len(idents)+1:
+			t = pa.NewDimension(pa.NewNumber(1, pa.Pos{}), "px")
+		case k == len(idents)+2:
+			t = pa.VxPercentage(10)
+		default:
+			t = pa.NewNumber(0, pa.Pos{})
+		}
+		if i > 0 {
+			args = append(args, ws)
+		}
+		args = append(args, t)
+	}
+	comma := pa.NewLiteral(",", pa.Pos{})
+	if n > 0 {
+		args = append(args, comma, ws)
+	}
+	args = append(args, pa.NewIdent("red", pa.Pos{}), comma, ws, pa.NewIdent("blue", pa.Pos{}))
+	value := []pa.Token{pa.NewFunctionBlock(pa.Pos{}, fn, args)}
+	prop := []string{"background-image", "background", "list-style-image", "border-image-source"}[vx.Choose("property", 2+2*vx.Tier())]
+	out := PreprocessDeclarations("", []pa.Compound{pa.Declaration{Name: prop, Value: value}})
+	vx.Reach("validated")
+	if len(out) > 0 {
+		vx.Reach("accepted")
+	}
+}
